@@ -14,7 +14,7 @@ FLAKY_PKGS = {"github.com/bmeg/grip/test/server", "github.com/bmeg/grip/kvgraph/
 
 def sh(cmd, cwd=None, timeout=1500):
     try:
-        p = subprocess.run(cmd, shell=True, cwd=cwd, env=ENV, capture_output=True, text=True, timeout=timeout)
+        p = subprocess.run(cmd, shell=True, cwd=cwd, env=ENV, capture_output=True, text=True, errors="replace", timeout=timeout)
         return p.returncode, p.stdout + p.stderr
     except subprocess.TimeoutExpired as e:
         return 124, "TIMEOUT\n" + ((e.stdout or b"").decode(errors="replace") if isinstance(e.stdout, bytes) else (e.stdout or ""))
